@@ -64,6 +64,10 @@ package symbols
 //@ func TypeConforms(ctx, left, right)
 //@   guard call TypeConforms in loop 3: arg2 == rightTpe
 //@   guard call TypeConforms in loop 5: arg2 == rightTpe#2
+// Function and tuple types are compared position by position only when both have the same number of arguments: the
+// recursive question in the loop indexes the other type's arguments within range.
+//@   guard call TypeConforms in loop 1: 0 <= rangeindex && rangeindex < len(rightDomain) && len(leftDomain) == len(rightDomain)
+//@   guard call TypeConforms in loop 6: 0 <= rangeindex#4 && rangeindex#4 < len(rightTuple.Args) && len(leftTuple.Args) == len(rightTuple.Args)
 //@   opt perreturn
 //@   opt nosafety
 //@   requires basesDistinct()
